@@ -39,7 +39,7 @@ def generate(ctx):
     rng = ctx.rng
     th = ctx.tier == "thorough"
     cells = [("bi", "c0", "n0"), ("bi", "c1", "n0"), ("bi", "c0", "n1"), ("bi", "c1", "n1"), ("s1", "serial", "serial"), ("s2", "serial", "serial")]
-    for _ in range(3000 if th else 50):
+    for _ in range(1800 if th else 50):
         kinds = [rng.choice(TRAINER_KINDS) for _ in range(rng.randint(1, 2))]
         ops = []
         for _ in range(rng.randint(20, 80)):
